@@ -673,11 +673,12 @@ _FORBIDDEN = (ast.For, ast.While, ast.FunctionDef, ast.AsyncFunctionDef, ast.Cla
               ast.Delete, ast.Raise, ast.Yield, ast.YieldFrom, ast.Import, ast.ImportFrom, ast.Assert, ast.Match, ast.AsyncFor, ast.AsyncWith)
 
 
-def translate(source: str, target: Target, cfg: Cfg) -> dict:
+def translate(source: str, target: Target, cfg: Cfg, translator_cls=None, prepare=None) -> dict:
     """{"lean", "lean_name", "lead": [[param, type]…], "attrs": [declared attribute inputs], "inputs": [plain inputs], "outputs",
-    "externals": [[callee text, param, arity]…]}"""
-    tree, fn, static, stmts, before_stmts, after_stmts, spliced = _prepare(source, target, cfg)
-    tr = ProtoTranslator(tree, cfg, target, fn, static, spliced)
+    "externals": [[callee text, param, arity]…]}; `translator_cls` / `prepare`: hooks for the modules built on top of this one
+    (harness/pytolean_decide.py) — the defaults are this module's and what the existing plugins emit does not depend on them"""
+    tree, fn, static, stmts, before_stmts, after_stmts, spliced = (prepare or _prepare)(source, target, cfg)
+    tr = (translator_cls or ProtoTranslator)(tree, cfg, target, fn, static, spliced)
     all_stmts = list(stmts) + [st for body in spliced.values() for st in body]
     for st in all_stmts:
         for n in ast.walk(st):
